@@ -55,35 +55,48 @@ func verifApply[T uint32 | uint64](op int, a Duplex[T], b Provider[T]) {
 	}
 }
 
-// verifLayout constrains the container layout the values fall into:
-// 1: all values share everything above the low 16 bits (same roaring container),
-// 2: all values share everything above the low 32 bits (64-bit: same high word),
+// verifValue creates a symbolic value in the given container layout:
+// 1: base with symbolic low 16 bits (all values in one roaring container),
+// 2: base with symbolic low 32 bits (64-bit: same high word, any container),
 // 3: unconstrained.
-func verifLayout[T uint32 | uint64](layout int, base T, vs ...T) {
-	for _, v := range vs {
-		switch layout {
-		case 1:
-			verifrt.Assume(v>>16 == base>>16)
-		case 2:
-			verifrt.Assume(uint64(v)>>32 == uint64(base)>>32)
+// Building the value from a shared symbolic base (instead of assuming equal high bits)
+// makes the shared fields syntactically identical, so roaring's key comparisons fold.
+func verifValue[T uint32 | uint64](layout int, base T, name string) T {
+	var zero T
+	switch layout {
+	case 1:
+		return base&^T(0xFFFF) | T(verifrt.NondetUint16(name))
+	case 2:
+		if uint64(^zero) > 0xFFFFFFFF {
+			hi := uint64(base) &^ 0xFFFFFFFF
+			return T(hi | uint64(verifrt.NondetUint32(name)))
 		}
 	}
+	if uint64(^zero) > 0xFFFFFFFF {
+		return T(verifrt.NondetUint64(name))
+	}
+	return T(verifrt.NondetUint32(name))
 }
 
-func verifPair[T uint32 | uint64](mk func() Duplex[T], nondet func(string) T, layout, na, nb int) {
+func verifBase[T uint32 | uint64]() T {
+	var zero T
+	if uint64(^zero) > 0xFFFFFFFF {
+		return T(verifrt.NondetUint64("base"))
+	}
+	return T(verifrt.NondetUint32("base"))
+}
+
+func verifPair[T uint32 | uint64](mk func() Duplex[T], layout, na, nb int) {
+	base := verifBase[T]()
 	a := make([]T, na)
 	b := make([]T, nb)
 	for i := range a {
-		a[i] = nondet("a")
+		a[i] = verifValue(layout, base, "a")
 	}
 	for i := range b {
-		b[i] = nondet("b")
+		b[i] = verifValue(layout, base, "b")
 	}
-	x := nondet("probe")
-	base := nondet("base")
-	verifLayout(layout, base, a...)
-	verifLayout(layout, base, b...)
-	verifLayout(layout, base, x)
+	x := verifValue(layout, base, "probe")
 
 	A, B := mk(), mk()
 	A.Add(a...)
@@ -115,24 +128,22 @@ func verifPair[T uint32 | uint64](mk func() Duplex[T], nondet func(string) T, la
 // VerifC13Pair64 / VerifC13Pair32: every ordered pairing {native, thread-safe wrapped}² of
 // receiver and operand x {Or, And, AndNot, Xor}, symbolic values in the given layout.
 func VerifC13Pair64(layout, na, nb int) {
-	verifPair(NewBitmap64, verifrt.NondetUint64, layout, na, nb)
+	verifPair(NewBitmap64, layout, na, nb)
 }
 
 func VerifC13Pair32(layout, na, nb int) {
-	verifPair(NewBitmap32, verifrt.NondetUint32, layout, na, nb)
+	verifPair(NewBitmap32, layout, na, nb)
 }
 
 // ---- single-set operations ------------------------------------------------------------
 
-func verifSingle[T uint32 | uint64](mk func() Duplex[T], nondet func(string) T, layout, n int) {
+func verifSingle[T uint32 | uint64](mk func() Duplex[T], layout, n int) {
+	base := verifBase[T]()
 	vals := make([]T, n)
 	for i := range vals {
-		vals[i] = nondet("v")
+		vals[i] = verifValue(layout, base, "v")
 	}
-	x, y := nondet("probe"), nondet("arg")
-	base := nondet("base")
-	verifLayout(layout, base, vals...)
-	verifLayout(layout, base, x, y)
+	x, y := verifValue(layout, base, "probe"), verifValue(layout, base, "arg")
 	S := mk()
 	if verifrt.NondetChoice("wrapped", 2) == 1 {
 		S = ThreadSafeDuplex(S)
@@ -201,23 +212,19 @@ func verifSingle[T uint32 | uint64](mk func() Duplex[T], nondet func(string) T, 
 	}
 }
 
-func VerifC13Single64(layout, n int) { verifSingle(NewBitmap64, verifrt.NondetUint64, layout, n) }
-func VerifC13Single32(layout, n int) { verifSingle(NewBitmap32, verifrt.NondetUint32, layout, n) }
+func VerifC13Single64(layout, n int) { verifSingle(NewBitmap64, layout, n) }
+func VerifC13Single32(layout, n int) { verifSingle(NewBitmap32, layout, n) }
 
 // ---- commutations ---------------------------------------------------------------------
 
 // VerifC13Commut: DuplexCommutation.Contains is the union, CommutativeDuplexes.Contains is
 // (some or-set contains) and (every and-set contains).
 func VerifC13Commut(layout int) {
-	a := []uint64{verifrt.NondetUint64("a"), verifrt.NondetUint64("a")}
-	b := []uint64{verifrt.NondetUint64("b")}
-	c := []uint64{verifrt.NondetUint64("c"), verifrt.NondetUint64("c")}
-	x := verifrt.NondetUint64("probe")
 	base := verifrt.NondetUint64("base")
-	verifLayout(layout, base, a...)
-	verifLayout(layout, base, b...)
-	verifLayout(layout, base, c...)
-	verifLayout(layout, base, x)
+	a := []uint64{verifValue(layout, base, "a"), verifValue(layout, base, "a")}
+	b := []uint64{verifValue(layout, base, "b")}
+	c := []uint64{verifValue(layout, base, "c"), verifValue(layout, base, "c")}
+	x := verifValue(layout, base, "probe")
 	A, B, C, E := NewBitmap64With(a...), ThreadSafeDuplex(NewBitmap64With(b...)), NewBitmap64With(c...), NewBitmap64()
 	u := CommutativeOr(A, E).Or(B)
 	verifrt.Assert(u.Contains(x) == verifrt.Or(verifIn(x, a), verifIn(x, b)), "DuplexCommutation.Contains is the union")
